@@ -557,6 +557,28 @@ class Gen:
             l = self.close_paren(o)
             self.s.features.add('subquery')
             return f, l
+        if cfg.placeholders and cfg.keyword_literals and rng.random() < 0.25:
+            # a parenthesis whose children are all plain tokens: bind
+            # parameters / literals tested with IS [NOT] NULL, joined by
+            # AND / OR (no identifier, no comparison: nothing is grouped)
+            o = self.open_paren(self.g())
+            for k in range(rng.choice([2, 2, 3])):
+                if k:
+                    self.kw(rng.choice(['AND', 'OR']))
+                y = rng.random()
+                if y < 0.6:
+                    self.emit('name', rng.choice(['?', ':p1', '%s', ':name',
+                                                  '$1']), self.g())
+                    self.s.features.add('placeholder')
+                elif y < 0.8:
+                    self.number()
+                else:
+                    self.string()
+                self.kw('IS')
+                self.kw(rng.choice(['NULL', 'NOT NULL']))
+            l = self.close_paren(o)
+            self.s.features.add('flat-bool-paren')
+            return o, l
         if depth > 0:
             o = self.open_paren(self.g())
             self.cond(depth - 1, top=False)
